@@ -61,6 +61,8 @@ func c11Body(t *testing.T, depth, nclients int) func(c *verifeng.Chooser) {
 				panic(ie)
 			}
 			c.Fail("panic", "panic", "%v", out.Panic)
+		case out.Deadlock != "":
+			c.Fail("stuck", "controller-deadlock", "a call into the subscription manager blocked with every goroutine idle (%s)", out.Deadlock)
 		case out.Hang:
 			c.Fail("hang", "hang", "the bubble never became quiescent (a goroutine spins or waits on a mutex)")
 		case out.Leak != "" && !c.Failed():
